@@ -369,6 +369,9 @@ func c09Build(u *ref.Universe, tier string, seed uint64, i int) (*drive.Outcome,
 }
 
 func c09Run(tier string, seed uint64, i int) []h.Result {
+	if k := i - c09N(tier) - len(c09AutoNameScenarios); k >= 0 {
+		return c09PositionRun(k)
+	}
 	u := c09Universe()
 	o, pkg, c := c09Build(u, tier, seed, i)
 	res := h.Result{Verdict: h.Held}
@@ -507,10 +510,11 @@ func init() {
 			"type-switch clauses and inline closures; declarations whose names equal import base names or the names the renamer would pick (fmt, util, strings, os, errors, fmt1, util1, util2, _autoGo_1, ...) as package-level var/const/type/func, parameters, named results, locals, " +
 			"range variables, type-switch bindings and closure parameters, before and after the references; references built and discarded with ResetStmt; ForceImport. Oracle per written file (go/parser + go/types with the same importer): the package type-checks; import names are unique in the file " +
 			"and differ from every identifier declared in the package; the multiset of (import path, member) that Go resolves for qualified identifiers equals the multiset the history made from that file; the import set equals referenced ∪ force-imported paths. " +
-			"non-trivial = history referencing at least 2 packages; distinct by history text",
+			"POSITION SWEEP (both tiers, deterministic): ~160 one-declaration programs in which a package is referenced exactly once, from one syntactic position (variadic parameter type, array length, case clause, composite-literal key, constraint term, method expression, defer/go call, select clause ...), alone and next to an equally named package: the import must survive, be uniquely named, and the reference must resolve to it. " +
+			"non-trivial = history referencing at least 2 packages, or a position program that was built; distinct by history text / position",
 		Assume: []string{"go/types Info.Uses (PkgName) on the re-checked output", "import order is not part of the property"},
 		MinNT:  100,
-		Plan:   func(tier string, seed uint64) int { return c09N(tier) + len(c09AutoNameScenarios) },
+		Plan:   func(tier string, seed uint64) int { return c09N(tier) + len(c09AutoNameScenarios) + c09PositionCases() },
 		Run:    c09Run,
 	})
 }
